@@ -98,15 +98,15 @@ Definition sort_spec (less : DroppedColumnInfo -> DroppedColumnInfo -> bool)
 
 (* a reference sorter: stable insertion sort for a `less` function (what sort.Slice runs on up to 12 elements) *)
 Section ISort.
-Variable less : DroppedColumnInfo -> DroppedColumnInfo -> bool.
-Fixpoint insert_less (a : DroppedColumnInfo) (l : list DroppedColumnInfo) : list DroppedColumnInfo :=
+Context {A : Type}.
+Variable less : A -> A -> bool.
+Fixpoint insert_less (a : A) (l : list A) : list A :=
   match l with
   | [] => [a]
   | x :: r => if less a x then a :: x :: r else x :: insert_less a r
   end.
 (* elements are inserted from the right, each BEFORE the first element it is `less` than: equal keys keep their order *)
-Definition isort_less (l : list DroppedColumnInfo) : list DroppedColumnInfo :=
-  fold_right (fun a acc => insert_less a acc) [] l.
+Definition isort_less (l : list A) : list A := fold_right (fun a acc => insert_less a acc) [] l.
 End ISort.
 
 (* row[key].(bool) *)
